@@ -48,9 +48,10 @@ type Spec struct {
 	// Init, if set, builds the initial world (e.g. on a pre-populated legacy store) instead of NewWorld(Cfg).
 	Init func(s *Spec) *World
 	// BaseModel, if set, is the model of the initial state built by Init (used by matchers that replay the model).
-	BaseModel *Model
-	KF        *KnownFindings // set by runSpecs: deviation oracles consult it to step over known findings inside a state
-	Strict    bool           // SaveVersion on an existing version: also require the storage to be byte-identical afterwards
+	BaseModel      *Model
+	KF             *KnownFindings // set by runSpecs: deviation oracles consult it to step over known findings inside a state
+	UnboundedReads bool           // read-only operations are not counted as deviations (the state key de-duplicates them)
+	Strict         bool           // SaveVersion on an existing version: also require the storage to be byte-identical afterwards
 }
 
 type RunStats struct {
@@ -134,6 +135,7 @@ func replay(s *Spec, hist []Op) (*World, *Violation) {
 		w = NewWorld(s.Cfg)
 	}
 	w.Strict = s.Strict
+	w.UnboundedReads = s.UnboundedReads
 	for i, o := range hist {
 		if v := w.Apply(o); v != nil {
 			return w, &Violation{Oracle: v.Oracle, Detail: fmt.Sprintf("at step %d (%s): %s", i, o, v.Detail)}
